@@ -695,6 +695,11 @@ pub fn random_string(rng: &mut Rng) -> String {
         let ind = rng.pick_str(&[" ", "  ", "\t", "    ", " \t"]);
         s = s.split('\n').map(|l| format!("{ind}{l}")).collect::<Vec<_>>().join("\n");
     }
+    if rng.chance(1, 8) {
+        // the same indentation for every non-empty line; empty lines stay empty
+        let ind = rng.pick_str(&[" ", "  ", "\t"]);
+        s = s.split('\n').map(|l| if l.is_empty() { String::new() } else { format!("{ind}{l}") }).collect::<Vec<_>>().join("\n");
+    }
     if rng.chance(1, 10) {
         // indentation of all lines but the first
         let ind = rng.pick_str(&[" ", "  ", "\t"]);
@@ -796,6 +801,20 @@ pub fn run(ctx: &mut Ctx) {
         return;
     }
     ctx.class("exhaustive", &format!("complete:len<={max_len}"));
+
+    // Phase 1b: EXHAUSTIVE over strings of 1-3 (thorough: 1-4) lines drawn from 10 line shapes
+    // (empty, blank, text at several indentations): 1110 / 11110 strings.
+    let max_lines = if ctx.quick() { 3 } else { 4 };
+    for n in 1..=max_lines {
+        for i in 0..(astgen::LINE_SHAPES.len() as u64).pow(n as u32) {
+            idx += 1;
+            if ctx.mine(idx) {
+                check_case(ctx, &astgen::nth_line_shape_string(i, n), None, "exhaustive_line_shapes");
+                ctx.count("exhaustive_line_shape_strings_done", 1);
+            }
+        }
+    }
+    ctx.class("exhaustive", &format!("complete:line-shapes<={max_lines}"));
 
     // Phase 2: random Unicode strings until the budget is used.
     let mut n = 1_000_000u64;
